@@ -33,11 +33,18 @@ def gen_c01(rng: random.Random, big: bool):
     src = []
     defined_alias = set()
     nst = rng.randint(1, 40 if big else 10)
+    many = rng.random() < 0.06
+    if many:
+        # now and then a file with 8..20 mothers, most of them given two or three Decay blocks
+        nm = rng.randint(8, 20)
+        mothers = [f"P{i}" for i in range(nm)]
+        daughters = mothers + daughters[len(daughters) - rng.randint(1, 4):]
+        nst = rng.randint(2 * nm, 3 * nm)
     for _ in range(nst):
-        r = rng.random()
+        r = rng.random() * (0.7 if many else 1.0)
         if r < 0.6:
             lines = []
-            for _ in range(rng.choice([0, 1, 1, 2, 3, 6 if big else 3])):
+            for _ in range(rng.choice([0, 1, 1, 2, 3, 6 if big else 3, 12 if many else 1])):
                 use_alias = aliases and rng.random() < 0.2
                 ln = {"bf": rng.choice(lits),
                       "ds": [rng.choice(daughters) for _ in range(rng.choice([0, 1, 2, 2, 3, 4, 6]))],
